@@ -119,16 +119,18 @@ func execute(progs [][]op, sched []int, greedy bool) outcome {
 	for _, k := range keys {
 		computes[k] = int(*c.computes[k])
 		if !c.hung && len(unfinished) == 0 {
-			if rc := c.rawCell(k); rc == "inflight" || rc == "absent" {
-				finals[k] = map[string]string{"inflight": "placeholder", "absent": "missing"}[rc]
-			} else if v, ok := c.m.Load(k); ok {
-				finals[k] = renderVal(v)
-			} else {
-				finals[k] = "missing"
+			finals[k] = c.finalOf(k)
+		}
+	}
+	nilValued := map[int]bool{}
+	for _, p := range progs {
+		for _, x := range p {
+			if x.kind != "load" && tagOf(x.v) == tagNil {
+				nilValued[x.k] = true
 			}
 		}
 	}
-	o.verdicts = judge(h, computes, finals, unfinished, c.earlyWake, c.hung)
+	o.verdicts = judge(h, computes, finals, nilValued, unfinished, c.earlyWake, c.hung)
 	return o
 }
 
@@ -158,13 +160,26 @@ func (x *runner) runCase(progs [][]op, sched []int, greedy bool) outcome {
 	for _, v := range o.verdicts {
 		r.OracleFail(hx.Case{Sig: v.sig, Op: op1, Impl: o.end, Expected: v.expected})
 	}
+	kinds := map[int]bool{}
+	for _, p := range progs {
+		for _, q := range p {
+			if q.kind != "load" {
+				kinds[tagOf(q.v)] = true
+			}
+		}
+	}
+	for tag, name := range []string{"int", "error(pointer)", "error(struct)", "nil-interface", "pointer", "struct"} {
+		if kinds[tag] {
+			r.Count("values:" + name)
+		}
+	}
 	if o.contended {
 		r.Count("case:contended")
 		r.Distinctive(op1)
 	} else {
 		r.Count("case:uncontended")
 	}
-	if strings.HasSuffix(o.mid, "blocked=()") {
+	if strings.Contains(o.mid, "blocked=()") {
 		r.Count("mid:none-blocked")
 	} else {
 		r.Count("mid:some-blocked")
@@ -229,13 +244,18 @@ func (x *runner) exploreAll(progs [][]op, limit int) bool {
 // ---------------------------------------------------------------- generators
 
 func mk(spec string) [][]op {
-	// "L0 S0 | l0 | s0" : threads separated by |, ops: L<k> LoadOrStore, l<k> load, s<k> store
+	// "L0 s0e | l0 | s0" : threads separated by |, ops: L<k> LoadOrStore, l<k> load, s<k> store;
+	// a letter after the key is the kind of the value computed / stored (e f n p s, none: an int)
 	var progs [][]op
 	for ti, t := range strings.Split(spec, "|") {
 		var p []op
 		for oi, f := range strings.Fields(t) {
+			tag := tagInt
+			if i := strings.IndexByte(tagLetters[1:], f[len(f)-1]); i >= 0 {
+				tag, f = i+1, f[:len(f)-1]
+			}
 			k, _ := strconv.Atoi(f[1:])
-			v := 10*(ti+1) + oi
+			v := mkVal(tag, 10*(ti+1)+oi)
 			switch f[0] {
 			case 'L':
 				p = append(p, op{"los", k, v})
@@ -267,6 +287,55 @@ var corpus = []string{
 	"L0 L1 | L1 L0", // crossed keys
 	"l0 l0 | L0",    // missing, then present
 	"s0 s0 | L0 s0", //
+	// values of every kind: what was published or stored is what comes back
+	"L0e l0",          // a computation that returned an error: the error is the key's value
+	"s0e l0",          //
+	"L0e L0",          // ... and nobody computes again
+	"L0f l0 L0",       //
+	"L0n l0 L0",       // the nil interface is a value too
+	"s0n l0",          //
+	"L0p l0 | L0s l0", //
+	"L0e | L0e",       //
+	"L0e | l0",        //
+	"L0e | s0",        //
+	"L0 | s0e",        //
+	"s0e | s0",        //
+	"L0e | s0 | L0",   // an ordinary store waiting on a failed computation, a third caller arriving
+	"L0e | L0 | l0",   //
+	"s0f | L0 | l0",   //
+	"L0n | L0 | l0",   //
+	"L0n | s0p | s0s", //
+	"L0e L1e | L1 L0", //
+}
+
+// the kinds a generated value takes: ints half of the time, errors often
+func randomTag(rng *rand.Rand) int {
+	switch rng.Intn(8) {
+	case 0, 1, 2, 3:
+		return tagInt
+	case 4, 5:
+		return tagErr
+	}
+	return tagFailure + rng.Intn(nTags-tagFailure)
+}
+
+// retag gives the value-carrying ops of a configuration kinds in rotation, starting at `from`
+// (every third one stays an int).
+func retag(progs [][]op, from int) [][]op {
+	rot := []int{tagErr, tagInt, tagNil, tagErr, tagPtr, tagInt, tagFailure, tagStruct, tagInt}
+	var out [][]op
+	for _, p := range progs {
+		var q []op
+		for _, o := range p {
+			if o.kind != "load" {
+				o.v = mkVal(rot[from%len(rot)], o.v%1000)
+				from++
+			}
+			q = append(q, o)
+		}
+		out = append(out, q)
+	}
+	return out
 }
 
 func randomProgs(rng *rand.Rand, maxT, maxOps, nKeys int) [][]op {
@@ -283,7 +352,7 @@ func randomProgs(rng *rand.Rand, maxT, maxOps, nKeys int) [][]op {
 			if rng.Intn(3) == 0 {
 				k = rng.Intn(nKeys)
 			}
-			v := 10*(t+1) + i
+			v := mkVal(randomTag(rng), 10*(t+1)+i)
 			switch rng.Intn(5) {
 			case 0, 1:
 				p = append(p, op{"los", k, v})
@@ -350,7 +419,10 @@ func parseReplay(line string) ([][]op, []int, error) {
 			k, _ := strconv.Atoi(o.List[1].Atom)
 			v := 0
 			if len(o.List) > 2 {
-				v, _ = strconv.Atoi(o.List[2].Atom)
+				var ok bool
+				if v, ok = parseVal(o.List[2].Atom); !ok {
+					return nil, nil, fmt.Errorf("c18: cannot replay %q: value %q", line, o.List[2].Atom)
+				}
 			}
 			p = append(p, op{o.List[0].Atom, k, v})
 		}
@@ -364,10 +436,15 @@ func parseReplay(line string) ([][]op, []int, error) {
 	return progs, sched, nil
 }
 
+var (
+	alphaInts   = []string{"L0", "L1", "l0", "l1", "s0", "s1"}
+	alphaErrors = []string{"L0", "L0e", "L1", "L1e", "l0", "l1", "s0", "s0e", "s1", "s1e"}
+)
+
 // allProgs enumerates every configuration with exactly nt threads of exactly no ops over the
-// op alphabet {L0 L1 l0 l1 s0 s1}, up to renaming of keys and of threads.
-func allProgs(nt, no int) [][][]op {
-	alpha := []string{"L0", "L1", "l0", "l1", "s0", "s1"}
+// op alphabet (alphaInts: {L0 L1 l0 l1 s0 s1}; alphaErrors: the same with every computed or
+// stored value an int or an error), up to renaming of keys and of threads.
+func allProgs(nt, no int, alpha []string) [][][]op {
 	var threads []string
 	var gen func(prefix []string)
 	gen = func(prefix []string) {
@@ -407,7 +484,7 @@ func allProgs(nt, no int) [][][]op {
 
 func Run(cfg Config) *hx.Result {
 	r := hx.NewResult("C18", cfg.Module, cfg.Seed, cfg.Tier)
-	r.Rule = "configurations of <=3 goroutines x <=2 calls (LoadOrStore/Load/Store) x 2 keys (thorough: also up to 5x3x3); every schedule is forced on the real LazySyncMap through the yield hook, observed (results, yield points, compute counts, raw cells, blocked set), driven to completion and judged (compute<=1, racers agree, no placeholder/nil result, no lost store, nobody blocked, brute-force linearizability); a case is non-trivial when some call found the key absent-or-in-flight (owner or waiter); distinct by configuration+schedule"
+	r.Rule = "configurations of <=3 goroutines x <=2 calls (LoadOrStore/Load/Store) x 2 keys (thorough: also up to 5x3x3), computing and storing values of several Go kinds (ints, errors, the nil interface, pointers, structs); every schedule is forced on the real LazySyncMap through the yield hook, observed (results, yield points, compute counts, raw cells, blocked set, and at the end the value a Load returns for every key), driven to completion and judged (compute<=1, racers agree, no placeholder/nil result, no lost store, nobody blocked, brute-force linearizability); a case is non-trivial when some call found the key absent-or-in-flight (owner or waiter); distinct by configuration+schedule"
 	x := &runner{cfg: cfg, r: r}
 	if len(cfg.Replay) > 0 {
 		for _, line := range cfg.Replay {
@@ -429,13 +506,23 @@ func Run(cfg Config) *hx.Result {
 		}
 	}
 	// 2. exhaustive over configurations
+	// (one-call threads: every computed or stored value an int or an error; two-call threads:
+	// ints, and once more with kinds given in rotation)
 	exhaustive := true
-	families := [][2]int{{2, 1}}
+	type family struct {
+		nt, no int
+		alpha  []string
+		retag  bool
+	}
+	families := []family{{2, 1, alphaErrors, false}}
 	if thorough {
-		families = [][2]int{{2, 1}, {3, 1}, {2, 2}}
+		families = []family{{2, 1, alphaErrors, false}, {3, 1, alphaErrors, false}, {2, 2, alphaInts, false}, {2, 2, alphaInts, true}}
 	}
 	for _, f := range families {
-		for _, progs := range allProgs(f[0], f[1]) {
+		for i, progs := range allProgs(f.nt, f.no, f.alpha) {
+			if f.retag {
+				progs = retag(progs, i)
+			}
 			exhaustive = !x.enough() && x.exploreAll(progs, 200000) && exhaustive
 		}
 	}
